@@ -74,10 +74,19 @@ func tapRndLeaf(r *Rng) tapLeafT {
 
 var tapTreeSizes = []int{1, 2, 3, 4, 5, 6, 7, 8, 9, 11, 13, 15, 16, 17, 23, 31, 32, 33, 47, 63, 64}
 
+// distinct leaves with even leaf versions (the domain of the property)
 func tapRndLeaves(r *Rng, n int) []tapLeafT {
-	ls := make([]tapLeafT, n)
-	for i := range ls {
-		ls[i] = tapRndLeaf(r)
+	ls := make([]tapLeafT, 0, n)
+	seen := map[string]bool{}
+	for len(ls) < n {
+		l := tapRndLeaf(r)
+		l.ver &= 0xfe
+		k := string(append([]byte{l.ver}, l.script...))
+		if seen[k] {
+			continue
+		}
+		seen[k] = true
+		ls = append(ls, l)
 	}
 	return ls
 }
@@ -130,8 +139,11 @@ func genTapTree(r *Rng, n int, w *bufio.Writer) {
 			cnt = 0
 		}
 		ls := tapRndLeaves(r, cnt)
-		if cnt >= 2 && r.Chance(5) { // a repeated leaf: outside the property, inside the model
+		if cnt >= 2 && r.Chance(6) { // a repeated leaf: outside the property, inside the model
 			ls[r.Intn(cnt)] = ls[r.Intn(cnt)]
+		}
+		if cnt >= 1 && r.Chance(5) { // an odd leaf version: not representable in a control block
+			ls[r.Intn(cnt)].ver |= 1
 		}
 		key := tapRndPriv(r).PubKey()
 		fmt.Fprintln(w, tapTreeLine(key, ls))
@@ -298,9 +310,6 @@ func genTapCb(r *Rng, n int, w *bufio.Writer) {
 	for i := 0; i < n; i++ {
 		cnt := 1 + r.Intn(9)
 		ls := tapRndLeaves(r, cnt)
-		for j := range ls {
-			ls[j].ver &= 0xfe
-		}
 		key := tapRndPriv(r).PubKey()
 		tree := taproot.AssembleTaprootScriptTree(tapToLeaves(ls)...)
 		root := tree.RootNode.TapHash()
